@@ -96,6 +96,12 @@ def render_line(ln):
         return ""
     if k == "comment":
         return "/* " + ln.get("text", "note") + " */"
+    if k == "mlc_open":          # three physical lines, one logical line: code, comment text only, code
+        return "int before; /* a comment that begins after code,"
+    if k == "mlc_mid":
+        return "   runs over a line of its own"
+    if k == "mlc_close":
+        return "   and ends before code */ int after;"
     if k == "if":
         return "#if " + render_expr(ln["expr"])
     if k == "elif":
@@ -129,7 +135,7 @@ def render_file(lines):
 
 
 def counted(ln):
-    return ln["kind"] not in ("blank", "comment")
+    return ln["kind"] not in ("blank", "comment", "mlc_mid")
 
 
 # ------------------------------------------------------------------ reference
